@@ -174,7 +174,11 @@ func runC09(c *fw.Case) {
 						c.Violate("sstable-damage/panic/"+kind+"/"+mname+feat, "%s %s: panic %v", cfg, what, p)
 					}
 				}()
-				opts := []sstables.ReadOption{sstables.ReadBasePath(tdir), sstables.ReadWithKeyComparator(skiplist.BytesComparator{}), sstables.ReadBufferSizeBytes(4096)}
+				opts := []sstables.ReadOption{sstables.ReadBasePath(tdir), sstables.ReadWithKeyComparator(skiplist.BytesComparator{})}
+				// the read buffer is smaller than the data file for most copies (and the library default for the rest)
+				if rb := []int{4096, 16, 64, 0, 256}[copyNo%5]; rb != 0 {
+					opts = append(opts, sstables.ReadBufferSizeBytes(rb))
+				}
 				switch loaderName {
 				case "disk":
 					opts = append(opts, sstables.ReadIndexLoader(&sstables.DiskIndexLoader{}))
@@ -244,6 +248,44 @@ func runC09(c *fw.Case) {
 						if !acceptable(i, got) {
 							bad("stacked-Get", i, got)
 							return
+						}
+					}
+					// ... and the stacked scans: whatever they hand out for a key is the newer table's written value
+					for pass := 0; pass < 3; pass++ {
+						var it sstables.SSTableIteratorI
+						var err error
+						access := []string{"stacked-Scan", "stacked-ScanStartingAt", "stacked-ScanRange"}[pass]
+						switch pass {
+						case 0:
+							it, err = super.Scan()
+						case 1:
+							it, err = super.ScanStartingAt(kvs[0].k)
+						default:
+							it, err = super.ScanRange(kvs[0].k, kvs[len(kvs)-1].k)
+						}
+						if err != nil {
+							continue
+						}
+						for {
+							k, v, err := it.Next()
+							if err != nil {
+								break
+							}
+							idx := -1
+							for i := range kvs {
+								if string(kvs[i].k) == string(k) {
+									idx = i
+								}
+							}
+							if idx < 0 {
+								c.Violate("sstable-damage/scan-wrong-key/"+kind+"/"+mname+"/"+access+feat, "%s %s [%s]: %s returned key %x, which is in no table", cfg, what, mname, access, k)
+								return
+							}
+							c.Obs("stacked_scan_steps_over_a_damaged_newer_table", 1)
+							if !acceptable(idx, v) {
+								bad(access, idx, v)
+								return
+							}
 						}
 					}
 				}
